@@ -3,6 +3,22 @@
 import json, subprocess, collections
 
 CLAIMS = {
+ "C04": dict(
+   text="The one property that is almost entirely shape, decided exactly for its mask part: on the typed AST of both builds every mask operation is shown to treat all words uniformly and to cover each word once, and its per-word expression is constant-folded to a one-bit truth table (plus quantifier) that must equal the set operation of the specification; Get/Set addressing is matched against the accepted forms for the word width; every filter's Matches is evaluated as a truth table over its atoms against its definition. Because Go's bitwise operators act bit-parallel, the one-bit table decides all 2^256 masks, which no test can enumerate.",
+   note="Trusted: go/types for constants and callee resolution; the recognisers for the accepted source forms (anything else is reported as undecided, not passed). Nested logic filters follow compositionally from the per-node tables.",
+   technique="static analysis: typed-AST uniformity rules + truth-table folding of expressions against a specification table",
+   ref="§2 C04"),
+ "C12": dict(
+   text="Both copies of the subscription predicate are parsed from the typed AST as if-chains over 13 atoms and evaluated on all consistent assignments against the documented rule, with the event masks taken from the event constants; the mask builder, every notification site's argument correspondence (trigger, masks, component restriction, relation ids are the event's own), Dispatch's aggregation and accessors, and freshness of loop-carried notification inputs are checked structurally.",
+   note="Does not decide equality of delivered and selected streams over histories. Dispatch soundness additionally rests on monotonicity of the predicate (argument in DESIGN.md).",
+   technique="static analysis: exhaustive truth table of a parsed predicate vs specification; typed-AST correspondence rules; SSA phi analysis",
+   ref="§2 C12"),
+ "C11": dict(
+   text="Static rules on go/ssa and the typed AST: every entry that can change entity state reaches a notification site or returns a batch query whose close function notifies; removal events lie inside a lock window before the removal primitives, all others outside lock windows, after the change and after component values are copied; each site feeds the subscription test with the event's own fields; sibling sites compute their type bits alike; the no-op path neither emits nor crashes; loop-carried notification inputs are fresh.",
+   note="Does NOT decide truthfulness of event content w.r.t. the actual change, exactly-once delivery, or replayability — the core of the property. Claimed as structural necessary conditions only.",
+   technique="static analysis: call-graph reachability, lock-window typestate, ordering (reachability) rules, sibling agreement",
+   ref="§2 C11"),
+
  "C13": dict(
    text="Sound static argument by exclusion: a single-goroutine Go program is deterministic unless it observes map iteration order, scheduling, clocks/randomness/OS state, finalizers or address-derived values. Every function of the six library packages is scanned (resolved callees, SSA instructions) for each of these sources; map ranges are admitted only with an order-insensitive body. A fixture of known-bad and known-good functions is analysed on every run, so a blind rule fails the check.",
    note="Assumes memory safety of the unsafe accesses and determinism of reflect/fmt for the values passed; does not decide that the deterministic algorithms compute the documented results. GC timing cannot influence results because no finalizer, sync.Pool or address-derived value is used.",
